@@ -1,4 +1,5 @@
 """Running histories against the real daemon, monitoring them, shrinking witnesses."""
+import os
 import random
 
 import build as buildmod
@@ -213,7 +214,19 @@ def fold(chk, prop, results, crash_is_violation=False):
                 # released is C10's (and C08's) question, not this property's
                 chk.count("leak_reports_not_judged_here")
             else:
-                chk.inconc("daemon crashed during a history (%s in %s); trace incomplete - see C08, whose workload covers crashes" % (kind, func))
+                where = ""
+                try:
+                    # keep the history of an inconclusive run, so it can be looked at (and fed to C08's replay)
+                    import json as _json
+                    d = os.path.join(vcommon.OUT, "replays", "inconclusive")
+                    os.makedirs(d, exist_ok=True)
+                    where = os.path.join(d, "%s-%s.json" % (prop, vcommon.h([r["config"], r["events"]])[:12]))
+                    with open(where, "w") as f:
+                        _json.dump({"property": prop, "kind": kind, "func": func, "err": err, "config": r["config"], "events": r["events"]}, f)
+                    where = " [history kept in %s]" % where
+                except Exception:
+                    where = ""
+                chk.inconc("daemon crashed during a history (%s in %s); trace incomplete - see C08, whose workload covers crashes%s" % (kind, func, where))
         if r.get("sample"):
             chk.sample({"history_tail": r["sample"]}, limit=2)
 
